@@ -697,18 +697,21 @@ def impl_run(case, coq, env):
 
 
 MANIFEST = {
-    "text": "Theorems (Coq, closed under the global context) about the model of the extension's decoding logic and index/integer arithmetic: "
-            "users() returns for every file of well-formed login records exactly user/terminal/host(:0 -> localhost)/time/pid of the USER_PROCESS "
-            "records when fields are cut at their width (repaired code), and for the code as it is whenever every string field is shorter than "
-            "its width (refuted otherwise: full-width fields are read across field borders); PSUTIL_STRNCPY and the MAC formatter write only "
-            "inside their buffers and terminate them, for every source string; CPU_SET on any long touches bit < 1024 or nothing; the "
-            "getaffinity sizing loop terminates without int overflow for every kernel answer; check_pid_range / every entry point's argument "
-            "conversion yields a value or TypeError/OverflowError/ValueError/UnicodeError, with undefined behaviour only in ioprio_set's "
-            "'ioclass << 13' for ioclass outside [0, 2^18) (refuted through the public ionice(); none after the proposed range check); "
-            "mount-table decoding round-trips the kernel's escapes for every entry and disk_partitions() keeps exactly the entries with a "
-            "device and a disk-backed type unless all=True (refuted for lines over 4095 bytes and for non-UTF-8 type/options). "
-            "The compiled code is tied to the model by running the real extension built with clang ASan+UBSan on generated utmp files, "
-            "mount tables and an argument sweep over all 17 entry points, each call in a forked child; a sanitizer report is a failing input.",
-    "note": "Partial by nature: memory safety of the compiled C is observed (sanitizers) on the generated runs, not proved. Trusted: Coq kernel + "
+    "text": "Theorems (Coq, closed under the global context) about the model of the extension's decoding logic and index/integer arithmetic, "
+            "as the code is after the repairs e85352e/a87b45e/301715a/0d52d5b: users() returns for every file of well-formed login records "
+            "exactly user/terminal/host(:0 -> localhost)/time/pid of the USER_PROCESS records, strings cut at the field width, and never reads "
+            "outside a record; PSUTIL_STRNCPY and the MAC formatter write only inside their buffers and terminate them, for every source string; "
+            "CPU_SET on any long touches bit < 1024 or nothing; the getaffinity sizing loop terminates without int overflow for every kernel "
+            "answer; check_pid_range and the argument conversion of all 17 entry points yield a value, a call into the OS or "
+            "TypeError/OverflowError/ValueError/UnicodeError for every argument tuple -- no undefined behaviour; ionice() rejects an ioclass "
+            "outside 0..3 and hands class*2^13+data to the kernel; the ethtool speed is defined for every answer; mount-table decoding "
+            "round-trips the kernel's escapes for every entry and disk_partitions(all=True) returns every entry whatever bytes it contains "
+            "(refuted for lines over 4095 bytes: known finding). The repaired defects are kept as refuted theorems about the legacy variants "
+            "of the model (full-width utmp fields read across field borders and past the record; signed 'ioclass << 13' and 'speed_hi << 16'; "
+            "strict UTF-8 on mount type/options). The compiled code is tied to the model by running the real extension built with clang "
+            "ASan+UBSan on generated utmp files, mount tables and an argument sweep over all entry points, each call in a forked child; a "
+            "sanitizer report is a failing input.",
+    "note": "Partial by nature: memory safety of the compiled C is observed (sanitizers) on the generated runs, not proved; the all=False filter is "
+            "proved for any type set agreeing with the kernel list (the /proc/filesystems parse is tied by the run only). Trusted: Coq kernel + "
             "vm_compute; hand-written model coq/C17/Model.v; record formats in coq/C17/Spec.v; glibc; the sanitizer runtime; the harness.",
 }
